@@ -5,7 +5,7 @@ use turdb::mvcc::{RecordHeader, VersionChainReader, VisibilityResult, WriteCheck
 
 fn any_header() -> RecordHeader { RecordHeader { flags: kani::any(), txn_id: kani::any(), prev_version: kani::any() } }
 
-// @vt prop=C08 tier=quick bound="every record header (any flags byte, any 64-bit txn id, any 64-bit version pointer); every undo pointer with page id < 2^48" outside="-" timeout=600
+// @vt prop=C08 tier=quick bound="every record header (any flags byte, any 64-bit txn id, any 64-bit version pointer); every undo pointer with page id < 2^48" outside="-" timeout=1800
 vt_proof! { unwind = 19; fn c08_header_and_pointer_codec() {
     let h = any_header();
     let mut buf = [0u8; 20];
@@ -18,7 +18,7 @@ vt_proof! { unwind = 19; fn c08_header_and_pointer_codec() {
     kani::cover!(h.is_locked() && h.is_deleted(), "w:locked_and_deleted");
 }}
 
-// @vt prop=C08 tier=quick bound="every header x every reader timestamp: visibility rule and write-conflict rule" outside="the scan path that applies the rule (needs real storage)" timeout=600
+// @vt prop=C08 tier=quick bound="every header x every reader timestamp: visibility rule and write-conflict rule" outside="the scan path that applies the rule (needs real storage)" timeout=1800
 vt_proof! { unwind = 3; fn c08_visibility_and_write_rules() {
     let h = any_header();
     let read_ts: u64 = kani::any();
@@ -43,7 +43,7 @@ vt_proof! { unwind = 3; fn c08_visibility_and_write_rules() {
     kani::cover!(c == WriteCheckResult::ConcurrentModification, "w:write_conflict");
 }}
 
-// @vt prop=C08 tier=quick bound="version chains of length 1..=3 (current version + up to 2 undo versions) with arbitrary headers, arbitrary reader timestamp" outside="longer chains" timeout=900
+// @vt prop=C08 tier=quick bound="version chains of length 1..=3 (current version + up to 2 undo versions) with arbitrary headers, arbitrary reader timestamp" outside="longer chains" timeout=1800
 vt_proof! { unwind = 5; fn c08_version_chain_walk() {
     let h0 = any_header(); let h1 = any_header(); let h2 = any_header();
     let read_ts: u64 = kani::any();
